@@ -64,6 +64,48 @@ async fn h_zoo_value<T: JsonSchema + Serialize + DeserializeOwned + Send + Sync 
     Err(HttpError::for_unavail(None, "no value found".into()))
 }
 
+#[derive(Deserialize, JsonSchema)]
+pub struct LabelQuery {
+    pub label: String,
+}
+#[derive(Serialize, JsonSchema)]
+pub struct LabelHeaders {
+    #[serde(rename = "x-label")]
+    pub label: String,
+}
+/// an endpoint-specific error type: framework-generated errors for this
+/// endpoint must come out in *this* shape, as the document says
+#[derive(Debug, Serialize, JsonSchema)]
+pub struct ZooError {
+    pub code: u16,
+    pub detail: String,
+}
+impl std::fmt::Display for ZooError {
+    fn fmt(&self, f: &mut std::fmt::Formatter<'_>) -> std::fmt::Result {
+        write!(f, "zoo error {}", self.code)
+    }
+}
+impl dropshot::HttpResponseError for ZooError {
+    fn status_code(&self) -> dropshot::ErrorStatusCode {
+        dropshot::ErrorStatusCode::from_u16(self.code).unwrap_or(dropshot::ErrorStatusCode::INTERNAL_SERVER_ERROR)
+    }
+}
+impl From<HttpError> for ZooError {
+    fn from(e: HttpError) -> Self {
+        ZooError { code: e.status_code.as_u16(), detail: e.external_message }
+    }
+}
+
+/// echoes a query value in a declared response header: for values that are
+/// not legal header values the *framework* has to produce the error
+async fn h_mayfail(
+    rq: RequestContext<ZooCtx>,
+    q: dropshot::Query<LabelQuery>,
+) -> Result<dropshot::HttpResponseHeaders<HttpResponseOk<Inner>, LabelHeaders>, ZooError> {
+    rq.context().entered.fetch_add(1, Ordering::SeqCst);
+    Ok(dropshot::HttpResponseHeaders::new(HttpResponseOk(Inner { x: 1, y: None }), LabelHeaders { label: q.into_inner().label }))
+}
+
 macro_rules! zoo_api {
     ($api:ident; $($t:ty),* $(,)?) => {{
         let mut i = 0;
@@ -89,6 +131,7 @@ pub fn zoo_echo_api() -> ApiDescription<ZooCtx> {
         Vec<Option<UnitEnum>>, Generic<Option<Inner>>, Box<Recursive>, [Inner; 2], uuid::Uuid, chrono::DateTime<chrono::Utc>,
         std::collections::BTreeSet<u8>, Option<Vec<External>>, std::collections::BTreeMap<String, Vec<Adjacent>>,
     ];
+    api.register(ApiEndpoint::new("label_mayfail".to_string(), h_mayfail, http::Method::GET, "application/json", "/zoo/label", ApiEndpointVersions::All)).unwrap();
     api
 }
 
@@ -488,6 +531,13 @@ pub fn check_doc_case(suts: &[Sut], rt: &tokio::runtime::Runtime, c: &DocCase, s
     let before = (sut.entered)();
     let resp = send(&req.bytes)?;
     st.eval();
+    let handler_may_refuse = ["vr_found", "vr_seeother", "vr_tempredirect"].contains(&opid.as_str());
+    if (opid.ends_with("_mayfail") || handler_may_refuse) && resp.status >= 500 {
+        // the handler's value could not be sent (e.g. not a legal header value): the framework's
+        // error must still be what the document says for this operation
+        st.count("framework_error_on_response_conversion");
+        return judge_response_m(&sut.doc, op, &resp, &what, false);
+    }
     if opid.ends_with("_value") && resp.status == 503 {
         // the value endpoint found no value of the type: nothing to judge
         st.count("skip:no-value");
